@@ -214,6 +214,27 @@ def leaf(kind, dec, streaming, guided, n, fo, b1, b2, b3):
     return _decode(dec, streaming, data, mk_type(t) if guided else None)
 
 
+def _guide2(g):
+    from pyasn1.type import univ
+    from vfw.catalogue import by_id as _b
+
+    return [None, univ.Integer(), univ.OctetString(), univ.Any(), univ.SequenceOf(componentType=univ.Any()), mk_type(_b("seq_any").t), mk_type(_b("seq").t)][g]
+
+
+def huge_len(dec, streaming, g, tagi, nlen, b0, rest, tail):
+    """A TLV whose length field has 4, 8 or 9 octets (around 2^31, 2^63, beyond): first length octet unconstrained, the others all 00 or all FF,
+    followed by 0..2 content octets - under guides incl. untagged ANY (which adds the header size to the length before reading)."""
+    tagoct = (0x04, 0x30, 0xA0, 0x24)[tagi]
+    data = bytes([tagoct, 0x80 + nlen, b0] + [0xFF if rest else 0x00] * (nlen - 1) + [0x02, 0x01][:tail])
+    if g == 5:
+        data = bytes([0x30, 0x80, 0x02, 0x01, 0x05]) + data
+    return _decode(dec, streaming, data, _guide2(g))
+
+
+OBLIGATIONS.append(Obl("huge_len", huge_len, {"dec": I(0, 2), "streaming": B, "g": I(0, 6), "tagi": I(0, 3), "nlen": I(4, 9), "b0": BYTE, "rest": B, "tail": I(0, 2)},
+                       shards=[{"g": C(g_), "nlen": C(n_), "dec": C(0)} for g_ in range(7) for n_ in (4, 8, 9)],
+                       thorough_shards=[{"g": C(g_), "nlen": C(n_), "dec": C(d_)} for g_ in range(7) for n_ in (4, 7, 8, 9) for d_ in range(3)], budget=150, thorough_budget=400,
+                       doc="length fields of 4/8/9 octets around 2^31, sys.maxsize and beyond under 7 guides incl. untagged ANY and SEQUENCE OF ANY"))
 REAL_LENS = (1, 17, 310, 400)
 REAL_TAILS = (b"", b".5", b"e-5", b"e400", b"E+9999999")
 
